@@ -1,16 +1,63 @@
 //go:build all || c11
 
+// C11 — every RPC reply is matched to its own request (scenario rpc-pairing).
+//
+// The real internal/net sender (reached through IpfsDHT.MessageSender()) talks
+// over scheduler-owned byte pipes to scripted remote peers that answer every
+// request with an echo of the WHOLE request (type, key and record), the way a
+// real server answers PUT_VALUE. The identity of a request is carried in its
+// record value; its key is either unique or drawn from a small pool shared by
+// all requests of the run, so concurrent requests to one peer may agree in
+// type and key and differ only in their payload.
+//
+// Oracle rules and the clause of the property each one encodes:
+//
+//	mismatched-reply        "each response returned by the message sender is the
+//	                        remote peer's reply to that very request" / "fails
+//	                        instead of consuming a later reply": the reply handed
+//	                        to a caller echoes the payload of the caller's own
+//	                        request, not that of a sibling (also a sibling with an
+//	                        equal type and key).
+//	reply-without-exchange  same clause, the other direction: a request that the
+//	                        sender acknowledged with a reply was received by the
+//	                        remote peer, and the remote wrote an answer to it.
+//	two-streams             "exchanges with one peer are serialized over at most
+//	                        one stream": at most one open outbound stream per
+//	                        peer at a quiescent point.
+//	two-streams-after-disconnect
+//	                        the same clause in the one situation covered by the
+//	                        open known finding: a disconnect notification has
+//	                        arrived and a request that was in flight or queued
+//	                        at that moment has not returned yet.
+//	stream-survives-disconnect
+//	                        the same clause once that excuse has run out: every
+//	                        request that was in flight or queued when a disconnect
+//	                        notification arrived has returned, the node is
+//	                        quiescent, and still two streams to the peer are open
+//	                        (a stream that belonged to the dropped per-peer state
+//	                        was never reset). To make a surviving stream visible
+//	                        the run ends with one fault-free request per peer.
+//	pipelined               "serialized": no request is written to a stream
+//	                        before the previous exchange on it completed.
+//	failed-stream-open      "reset rather than reused after any failed exchange".
+//	request-wedged          liveness after the faults stopped.
+//
+// Disconnect notifications come in two shapes: with the peer's streams reset
+// (the connection died) and "stale" (the connection was re-established before
+// the node processed the notification, so its streams are alive).
 package scen
 
 import (
 	"context"
 	"errors"
 	"fmt"
+	"sort"
 	"strings"
 	"time"
 
 	dht "github.com/libp2p/go-libp2p-kad-dht"
 	pb "github.com/libp2p/go-libp2p-kad-dht/pb"
+	recpb "github.com/libp2p/go-libp2p-record/pb"
 	"github.com/libp2p/go-libp2p/core/event"
 	"github.com/libp2p/go-libp2p/core/network"
 	"github.com/libp2p/go-libp2p/core/peer"
@@ -22,9 +69,10 @@ import (
 
 func init() {
 	sim.Register(&sim.Scenario{Prop: "C11", Name: "rpc-pairing", Run: runC11,
-		Real:   []string{"internal/net messageSenderImpl + peerMessageSender (reached through IpfsDHT.MessageSender())", "internal.CtxMutex", "subscriber_notifee disconnect path (real event bus)", "msgio framing"},
-		Stub:   []string{"host.Host / NewStream (simhost)", "streams (simhost.Fabric byte pipes, scheduler-owned delivery)", "remote peers (scripted: echo the request id)"},
-		Faults: []string{"fault_reply_late", "fault_stream_reset", "fault_cancel", "fault_open_fail", "fault_disconnect", "fault_remote_eof", "fault_split_chunk", "fault_write_error", "time_advance", "probe_timeout_hit", "probe_stream_reused", "probe_retry_stream", "probe_late_reply_after_timeout"},
+		Real: []string{"internal/net messageSenderImpl + peerMessageSender (reached through IpfsDHT.MessageSender())", "internal.CtxMutex", "subscriber_notifee disconnect path (real event bus)", "msgio framing"},
+		Stub: []string{"host.Host / NewStream (simhost)", "streams (simhost.Fabric byte pipes, scheduler-owned delivery)", "remote peers (scripted: echo the whole request - type, key, record)"},
+		Faults: []string{"fault_reply_late", "fault_stream_reset", "fault_cancel", "fault_open_fail", "fault_disconnect", "fault_remote_eof", "fault_split_chunk", "fault_write_error", "time_advance", "probe_timeout_hit", "probe_stream_reused", "probe_retry_stream", "probe_late_reply_after_timeout",
+			"fault_disconnect_stale", "probe_disconnect_inflight", "probe_disconnect_queued", "probe_same_key_concurrent", "probe_epilogue_after_disconnect"},
 	})
 }
 
@@ -34,6 +82,8 @@ type c11Req struct {
 	peer      *simnet.Peer
 	isMsg     bool
 	typ       pb.Message_MessageType
+	key       []byte
+	epilogue  bool // the fault-free closing request to a peer
 	ctx       context.Context
 	cancel    context.CancelFunc
 	started   bool
@@ -47,20 +97,34 @@ type c11Req struct {
 
 type c11Pair struct {
 	a, b     *simhost.Stream
-	atRemote frameParser // what the remote has received
-	fed      int         // bytes of b.Delivered already fed
-	pending  []int       // request ids received by the remote, not yet answered
-	answered map[int]bool
+	atRemote frameParser   // what the remote has received
+	fed      int           // bytes of b.Delivered already fed
+	pending  []*pb.Message // requests received by the remote, not yet answered
+	received map[int]bool  // ids of the requests the remote received
+	answered map[int]bool  // ids of the requests the remote received and wrote an answer to
 }
 
-func c11Key(id int) []byte { return []byte(fmt.Sprintf("req-%04d", id)) }
+// c11Payload is the record value that identifies request id; the key of a
+// request says nothing about its identity.
+func c11Payload(id int) []byte { return []byte(fmt.Sprintf("req-%04d", id)) }
 
-func c11ID(key []byte) int {
+// c11ID extracts the request id from the payload of a request or of a reply.
+func c11ID(m *pb.Message) int {
 	var id int
-	if _, err := fmt.Sscanf(string(key), "req-%d", &id); err != nil {
+	if m == nil || m.GetRecord() == nil {
+		return -1
+	}
+	if _, err := fmt.Sscanf(string(m.GetRecord().GetValue()), "req-%d", &id); err != nil {
 		return -1
 	}
 	return id
+}
+
+// c11Msg builds the wire message of a request (or the remote's echo of it).
+func c11Msg(typ pb.Message_MessageType, key []byte, id int) *pb.Message {
+	m := pb.NewMessage(typ, key, 0)
+	m.Record = &recpb.Record{Key: key, Value: c11Payload(id)}
+	return m
 }
 
 func runC11(s *sim.Sim) {
@@ -73,8 +137,13 @@ func runC11(s *sim.Sim) {
 	h := simhost.New(s, u.Self.ID, u.Self.Addrs, u.Name)
 	fab := simhost.NewFabric(s)
 	fab.ParkWrites = s.Chance("park-writes", 1, 3)
+	// 0: every request has a key of its own; n>0: keys come from a pool of n
+	// keys, so requests agree in their key (and often in peer and type too)
+	keyPool := s.Draw("key-pool", 4)
 	var pairs []*c11Pair
-	fab.OnOpen = func(a, b *simhost.Stream) { pairs = append(pairs, &c11Pair{a: a, b: b, answered: map[int]bool{}}) }
+	fab.OnOpen = func(a, b *simhost.Stream) {
+		pairs = append(pairs, &c11Pair{a: a, b: b, received: map[int]bool{}, answered: map[int]bool{}})
+	}
 	h.OpenStream = fab.StreamOpener(func(peer.ID) *simhost.Host { return nil }, nil)
 
 	d, err := dht.New(h, dht.ProtocolPrefix("/sim"), dht.Mode(dht.ModeClient), dht.DisableAutoRefresh())
@@ -89,23 +158,35 @@ func runC11(s *sim.Sim) {
 	}
 	defer emConn.Close()
 
-	s.Summary["cfg"] = fmt.Sprintf("peers=%d clients=%d requests=%d faults=%d parkWrites=%v", nPeers, nClients, nReqs, faultLevel, fab.ParkWrites)
+	s.Summary["cfg"] = fmt.Sprintf("peers=%d clients=%d requests=%d faults=%d parkWrites=%v keyPool=%d", nPeers, nClients, nReqs, faultLevel, fab.ParkWrites, keyPool)
 
 	// requests, assigned round-robin to clients
-	reqs := make([]*c11Req, nReqs)
-	types := []pb.Message_MessageType{pb.Message_GET_VALUE, pb.Message_FIND_NODE, pb.Message_GET_PROVIDERS, pb.Message_PING}
+	// plus one closing ("epilogue") request per peer, issued by a client of its
+	// own once every other request has returned and the faults have stopped
+	reqs := make([]*c11Req, nReqs+nPeers)
+	types := []pb.Message_MessageType{pb.Message_GET_VALUE, pb.Message_FIND_NODE, pb.Message_GET_PROVIDERS, pb.Message_PING, pb.Message_PUT_VALUE}
 	for i := range reqs {
-		r := &c11Req{id: i, client: i % nClients, peer: u.Peers[s.Draw("to", nPeers)]}
-		r.isMsg = s.Chance("is-msg", 1, 6)
+		r := &c11Req{id: i}
+		if i < nReqs {
+			r.client, r.peer = i%nClients, u.Peers[s.Draw("to", nPeers)]
+			r.isMsg = s.Chance("is-msg", 1, 6)
+		} else {
+			r.client, r.peer, r.epilogue = nClients, u.Peers[i-nReqs], true
+		}
 		r.typ = types[s.Draw("type", len(types))]
 		if r.isMsg {
 			r.typ = pb.Message_ADD_PROVIDER
+		}
+		if keyPool == 0 {
+			r.key = []byte(fmt.Sprintf("key-of-%04d", i))
+		} else {
+			r.key = []byte(fmt.Sprintf("shared-key-%d", s.Draw("key", keyPool)))
 		}
 		r.ctx, r.cancel = context.WithCancel(sim.WithTag(context.Background(), fmt.Sprintf("r%04d", i)))
 		reqs[i] = r
 	}
 	var ops opSet
-	for c := 0; c < nClients; c++ {
+	for c := 0; c <= nClients; c++ {
 		c := c
 		ops.Go(s, fmt.Sprintf("client%d", c), func() (any, error) {
 			for _, r := range reqs {
@@ -114,7 +195,7 @@ func runC11(s *sim.Sim) {
 				}
 				s.Park("client", fmt.Sprintf("c%d:r%04d", c, r.id), nil, r)
 				r.started, r.startAt = true, s.Now()
-				m := pb.NewMessage(r.typ, c11Key(r.id), 0)
+				m := c11Msg(r.typ, r.key, r.id)
 				if r.isMsg {
 					r.err = snd.SendMessage(r.ctx, r.peer.ID, m)
 				} else {
@@ -128,7 +209,10 @@ func runC11(s *sim.Sim) {
 	s.Quiesce()
 
 	everTimedOut := map[int]bool{}
-	disconnected := map[peer.ID]bool{}
+	sameKeySeen := false
+	// excused[p]: the requests to p that were in flight or queued (started, not
+	// returned) when a disconnect notification for p arrived
+	excused := map[peer.ID]map[int]bool{}
 	feedRemote := func() {
 		for _, p := range pairs {
 			data, _, _ := p.b.TakeDelivered()
@@ -142,7 +226,8 @@ func runC11(s *sim.Sim) {
 					continue
 				}
 				if m.GetType() != pb.Message_ADD_PROVIDER {
-					p.pending = append(p.pending, c11ID(m.GetKey()))
+					p.pending = append(p.pending, m)
+					p.received[c11ID(m)] = true
 				}
 			}
 		}
@@ -159,12 +244,23 @@ func runC11(s *sim.Sim) {
 				}
 			}
 			if n > 1 {
-				if disconnected[q.ID] {
+				var waiting []int
+				for id := range excused[q.ID] {
+					if !reqs[id].done {
+						waiting = append(waiting, id)
+					}
+				}
+				sort.Ints(waiting)
+				switch {
+				case len(waiting) > 0:
 					// after a disconnect notification the requests still queued on the
 					// old per-peer sender keep using (and re-open) their own stream
-					// next to the new sender's stream; classified separately
+					// next to the new sender's stream; classified separately (open
+					// known finding) for as long as one of those requests is running
 					s.Violate("two-streams-after-disconnect", "%d open streams to one peer at a quiescent point after a disconnect notification arrived while requests were queued on the old per-peer sender", n)
-				} else {
+				case excused[q.ID] != nil:
+					s.Violate("stream-survives-disconnect", "%d open streams to %s at a quiescent point although every request that was in flight or queued when a disconnect notification for that peer arrived has returned: a stream of the dropped per-peer state was never reset", n, q.Name)
+				default:
 					s.Violate("two-streams", "%d open streams to %s at a quiescent point", n, q.Name)
 				}
 			}
@@ -177,7 +273,7 @@ func runC11(s *sim.Sim) {
 			var ids []int
 			for _, f := range wp.Frames {
 				if m, err := decodeMsg(f); err == nil {
-					ids = append(ids, c11ID(m.GetKey()))
+					ids = append(ids, c11ID(m))
 					if m.GetType() != pb.Message_ADD_PROVIDER {
 						nReq++
 					}
@@ -208,12 +304,19 @@ func runC11(s *sim.Sim) {
 		// (iv) pairing
 		for _, r := range reqs {
 			if r.done && r.err == nil && !r.isMsg {
-				if r.resp == nil || c11ID(r.resp.GetKey()) != r.id {
-					got := -1
-					if r.resp != nil {
-						got = c11ID(r.resp.GetKey())
+				if got := c11ID(r.resp); got != r.id {
+					s.Violate("mismatched-reply", "request %d (%v %q) to %s returned the reply to request %d", r.id, r.typ, r.key, r.peer.Name, got)
+				}
+				// (v) ... and the remote did receive and answer that very request
+				received, answered := false, false
+				for _, p := range pairs {
+					if p.a.Remote == r.peer.ID {
+						received = received || p.received[r.id]
+						answered = answered || p.answered[r.id]
 					}
-					s.Violate("mismatched-reply", "request %d to %s returned the reply to request %d", r.id, r.peer.Name, got)
+				}
+				if !answered {
+					s.Violate("reply-without-exchange", "request %d (%v %q) to %s returned a reply, but the remote peer never answered that request (it reached the remote: %v)", r.id, r.typ, r.key, r.peer.Name, received)
 				}
 			}
 			if r.done && errors.Is(r.err, dht.ErrReadTimeout) && !everTimedOut[r.id] {
@@ -221,11 +324,33 @@ func runC11(s *sim.Sim) {
 				s.Count("probe_timeout_hit")
 			}
 		}
+		if !sameKeySeen {
+			running := map[string]bool{}
+			for _, r := range reqs {
+				if r.started && !r.done && !r.isMsg {
+					k := fmt.Sprintf("%s/%d/%s", r.peer.Name, r.typ, r.key)
+					if running[k] {
+						sameKeySeen = true
+						s.Count("probe_same_key_concurrent")
+						break
+					}
+					running[k] = true
+				}
+			}
+		}
 	}
 
 	allDone := func() bool {
 		for _, r := range reqs {
 			if !r.done {
+				return false
+			}
+		}
+		return true
+	}
+	regularDone := func() bool {
+		for _, r := range reqs {
+			if !r.epilogue && !r.done {
 				return false
 			}
 		}
@@ -241,15 +366,24 @@ func runC11(s *sim.Sim) {
 		if s.Failed() || allDone() {
 			break
 		}
-		if s.Steps > s.MaxSteps*2/3 {
-			draining = true
+		if s.Steps > s.MaxSteps*2/3 || regularDone() {
+			draining = true // no more faults (also none during the closing requests)
 		}
 		var acts []sim.Action
 		for _, p := range s.Parked() {
 			p := p
 			switch p.Kind {
 			case "client":
-				acts = append(acts, sim.Action{ID: p.ID, Do: func() { s.Release(p, nil) }})
+				r := p.Data.(*c11Req)
+				if r.epilogue && !regularDone() {
+					continue
+				}
+				acts = append(acts, sim.Action{ID: p.ID, Do: func() {
+					if r.epilogue && excused[r.peer.ID] != nil {
+						s.Count("probe_epilogue_after_disconnect")
+					}
+					s.Release(p, nil)
+				}})
 			case "open":
 				acts = append(acts, sim.Action{ID: p.ID, Do: func() {
 					if p.Cancelled() {
@@ -291,14 +425,14 @@ func runC11(s *sim.Sim) {
 		for _, p := range pairs {
 			p := p
 			if len(p.pending) > 0 && !p.b.IsReset() {
-				id := p.pending[0]
+				req := p.pending[0]
+				id := c11ID(req)
 				acts = append(acts, sim.Action{ID: fmt.Sprintf("answer:%s:r%04d", p.b.Name(), id), Do: func() {
 					p.pending = p.pending[1:]
-					typ := pb.Message_GET_VALUE
-					if id >= 0 && id < len(reqs) {
-						typ = reqs[id].typ
+					// the remote's reply is an echo of the whole request
+					if _, err := p.b.Write(encodeFrame(c11Msg(req.GetType(), req.GetKey(), id))); err == nil {
+						p.answered[id] = true
 					}
-					_, _ = p.b.Write(encodeFrame(pb.NewMessage(typ, c11Key(id), 0)))
 					if !draining && s.Chance("remote-eof", fp, 10) {
 						s.Count("fault_remote_eof")
 						_ = p.b.CloseWrite()
@@ -340,14 +474,39 @@ func runC11(s *sim.Sim) {
 				q := q
 				if h.Net().Connectedness(q.ID) == network.Connected {
 					acts = append(acts, sim.Action{ID: "zdisconnect:" + q.Name, Do: func() {
-						s.Count("fault_disconnect")
-						disconnected[q.ID] = true
-						for _, p := range pairs {
-							if p.a.Remote == q.ID {
-								p.b.SimReset()
+						// stale: the notification of a connection loss that is processed
+						// only after the connection was re-established - the streams the
+						// node has to that peer at this moment are alive and stay so
+						stale := s.Chance("stale-notification", 1, 3)
+						if stale {
+							s.Count("fault_disconnect_stale")
+						} else {
+							s.Count("fault_disconnect")
+						}
+						if excused[q.ID] == nil {
+							excused[q.ID] = map[int]bool{}
+						}
+						nRunning := 0
+						for _, r := range reqs {
+							if r.peer == q && r.started && !r.done {
+								excused[q.ID][r.id] = true
+								nRunning++
 							}
 						}
-						h.Net().SetConnected(q.ID, false)
+						if nRunning > 0 {
+							s.Count("probe_disconnect_inflight")
+						}
+						if nRunning > 1 {
+							s.Count("probe_disconnect_queued")
+						}
+						if !stale {
+							for _, p := range pairs {
+								if p.a.Remote == q.ID {
+									p.b.SimReset()
+								}
+							}
+							h.Net().SetConnected(q.ID, false)
+						}
 						_ = emConn.Emit(event.EvtPeerConnectednessChanged{Peer: q.ID, Connectedness: network.NotConnected})
 					}})
 				}
